@@ -169,6 +169,25 @@ def strip_comments(text):
     return "\n".join(out)
 
 
+def strip_attrs(text, applied):
+    """R1: `#[...]` attributes inside the item (e.g. `#[error("..")]` on enum variants, `#[cfg_attr(..)]`)."""
+    while True:
+        m = R.mask(text)
+        mm = re.search(r"#\s*\[", m)
+        if not mm:
+            return text
+        close = _paren_end(m, mm.end() - 1, "[", "]")
+        end = close + 1
+        # swallow the rest of the line if it is blank
+        k = end
+        while k < len(text) and text[k] in " \t":
+            k += 1
+        if k < len(text) and text[k] == "\n":
+            end = k + 1
+        text = text[:mm.start()] + text[end:]
+        applied.add("R1 inner attributes dropped")
+
+
 def strip_vis(text, applied):
     m = R.mask(text)
     edits = []
@@ -194,11 +213,12 @@ def process_fn(text, block, applied, canary=False):
     d = block.directives
     text = strip_comments(text)
     applied.add("R1 comments/doc/attributes dropped")
+    text = strip_attrs(text, applied)
     text = strip_vis(text, applied)
     # qualifiers
     m = R.mask(text)
     hdr = re.match(r"\s*((?:(?:const|unsafe)\s+)*)fn\b", m)
-    if hdr and "const" in hdr.group(1):
+    if hdr and "const" in hdr.group(1) and not any(k == "keepconst" for k, _ in d):
         text = text[:hdr.start(1)] + hdr.group(1).replace("const", "").lstrip() + text[hdr.end(1):]
         applied.add("R2 `const` qualifier of fn dropped")
     # user substitutions / drops first (they refer to source text)
@@ -312,7 +332,9 @@ def process_fn(text, block, applied, canary=False):
 def process_other(text, lead, block, applied):
     """struct / enum / const / type items: copied verbatim apart from R1/R2 and declared substs."""
     text = strip_comments(text)
-    text = strip_vis(text, applied)
+    text = strip_attrs(text, applied)
+    if not any(k == "keepvis" for k, _ in block.directives):
+        text = strip_vis(text, applied)
     applied.add("R1 comments/doc/attributes dropped")
     for key, val in block.directives:
         if key == "subst":
